@@ -68,6 +68,29 @@ def load_manifest_level(prop: str) -> str:
     return "model_checking"
 
 
+def boundary_first(hs: list) -> list:
+    """Order numeric families (`unseal_short_0, _31, _63, _64, _66`) so that the middle members — the ones next to the length
+    boundary the family brackets — come first; other harnesses keep their declaration order."""
+    fam = {}
+    for h in hs:
+        m = re.match(r"^(.*)_(\d+)$", h.name)
+        if m:
+            fam.setdefault(m.group(1), []).append(h)
+    out, done = [], set()
+    for h in hs:
+        m = re.match(r"^(.*)_(\d+)$", h.name)
+        if m and len(fam[m.group(1)]) >= 3:
+            if m.group(1) in done:
+                continue
+            done.add(m.group(1))
+            members = sorted(fam[m.group(1)], key=lambda x: int(x.name.rsplit("_", 1)[1]))
+            mid = (len(members) - 1) / 2
+            out += sorted(members, key=lambda x: abs(members.index(x) - mid))
+        else:
+            out.append(h)
+    return out
+
+
 def tag_of(desc: str):
     return re.findall(r"\[(C\d{2,3})\]", desc)
 
@@ -174,12 +197,15 @@ def main(argv=None):
     prop = argv[0]
     tier = os.environ.get("VERIF_TIER", "quick")
     only = None
+    plan_only = False
     i = 1
     while i < len(argv):
         if argv[i] == "--tier":
             tier = argv[i + 1]; i += 2
         elif argv[i] == "--only":
             only = argv[i + 1]; i += 2
+        elif argv[i] == "--plan":
+            plan_only = True; i += 1
         else:
             i += 1
     seed = int(os.environ.get("VERIF_SEED", "0") or 0)
@@ -214,7 +240,7 @@ def main(argv=None):
             # quick tier: at most `cap` harnesses per unit and property — canaries first (vacuity guard), then the harnesses whose
             # primary (first-listed) property is this one, then declaration order; the rest runs in the thorough tier
             canaries = [h for h in hs if h.expect == "fail"][:1]
-            rest = sorted([h for h in hs if h.expect != "fail"], key=lambda h: 0 if h.props[0] == prop else 1)
+            rest = sorted(boundary_first([h for h in hs if h.expect != "fail"]), key=lambda h: 0 if h.props[0] == prop else 1)
             hs = rest[:cap_u - len(canaries)] + canaries
         if hs:
             selected[u.name] = hs
@@ -256,6 +282,11 @@ def main(argv=None):
         print(f"UNDECIDED {e}")
         return 2
 
+    if plan_only:
+        for mu, hs_ in plan:
+            print(mu.name + ": " + " ".join(f"{h.unit}::{h.name}" for h in hs_))
+        print("total", sum(len(h) for _, h in plan))
+        return 0
     results: list[HarnessResult] = []
     unit_info = {}
     undecided_units = []
